@@ -1,7 +1,1376 @@
-//! C19 engine (not yet built).
-use crate::common::{CaseWriter, Opts};
+//! C19 — formatting preserves the program (translation validation).
+//!
+//! For every generated syntactically valid program `x` (token-level generator covering every
+//! construct of the quantifier; each program also decorated with comments at token boundaries) the
+//! REAL `jrsonnet_formatter::format` is run in-process.  It either declines (`Err(diagnostic)`) or
+//! returns text `o`; `o` is re-parsed with the evaluator's parser (`jrsonnet_ir_parser::parse`), both
+//! ASTs are serialised with every span erased (`tree` below — a complete walker over
+//! `jrsonnet_ir::Expr`, imports included) and both texts are lexed with the real lexer.  The Lean
+//! driver (`fmt.validate`) decides `Fmt.validate` (equal sugar normal forms), well-formedness of both
+//! trees and equality of the comment projections; the harness additionally evaluates both programs
+//! with the real evaluator and compares the `jrsonnet-fmt` binary with the library call.
+use std::{collections::BTreeMap, process::Command};
+
+use jrsonnet_formatter::{format, FormatOptions};
+use jrsonnet_ir::{
+	ArgsDesc, AssertStmt, BindSpec, CompSpec, Destruct, Expr, ExprParams, FieldMember, FieldName,
+	ImportKind, LiteralType, ObjBody, Source, Visibility,
+};
+use jrsonnet_lexer::{Lexer, SyntaxKind};
+use jrsonnet_rowan_parser::{rowan::NodeOrToken, AstNode};
+use serde_json::{json, Value};
+
+use crate::common::{eval_json, guarded, new_state, CaseWriter, Opts, Rng};
+
+// ---------------------------------------------------------------------------------------------
+// AST serialisation: `[label, kid, ...]` = node, string = atom.  Spans are not visited.
+// ---------------------------------------------------------------------------------------------
+
+fn none() -> Value {
+	json!(["none"])
+}
+fn opt(e: Option<&Expr>) -> Value {
+	e.map_or_else(none, tree)
+}
+fn list(label: &str, it: impl Iterator<Item = Value>) -> Value {
+	let mut v = vec![Value::String(label.to_owned())];
+	v.extend(it);
+	Value::Array(v)
+}
+fn destruct(d: &Destruct) -> Value {
+	match d {
+		Destruct::Full(n) => json!(["dfull", n.to_string()]),
+		#[allow(unreachable_patterns)]
+		other => json!(["dother", format!("{other:?}")]),
+	}
+}
+fn params(p: &ExprParams) -> Value {
+	list(
+		"params",
+		p.exprs
+			.iter()
+			.map(|p| json!(["param", destruct(&p.destruct), opt(p.default.as_deref())])),
+	)
+}
+fn bind(b: &BindSpec) -> Value {
+	match b {
+		BindSpec::Field { into, value } => json!(["bind", destruct(into), tree(value)]),
+		BindSpec::Function {
+			name,
+			params: p,
+			value,
+		} => json!(["fn", ["dfull", name.to_string()], params(p), tree(value)]),
+	}
+}
+fn spec(s: &CompSpec) -> Value {
+	match s {
+		CompSpec::IfSpec(i) => json!(["ifspec", tree(&i.cond)]),
+		CompSpec::ForSpec(f) => json!(["forspec", destruct(&f.destruct), tree(&f.over)]),
+	}
+}
+fn field(f: &FieldMember) -> Value {
+	let name = match &f.name.value {
+		FieldName::Fixed(s) => json!(["fixed", s.to_string()]),
+		FieldName::Dyn(e) => json!(["dyn", tree(e)]),
+	};
+	json!([
+		"field",
+		name,
+		if f.plus { "true" } else { "false" },
+		f.params.as_ref().map_or_else(none, params),
+		match f.visibility {
+			Visibility::Normal => ":",
+			Visibility::Hidden => "::",
+			Visibility::Unhide => ":::",
+		},
+		tree(&f.value)
+	])
+}
+fn assert_stmt(a: &AssertStmt) -> Value {
+	json!(["assertion", tree(&a.0), opt(a.1.as_ref().map(|m| &m.value))])
+}
+fn body(b: &ObjBody) -> Value {
+	match b {
+		ObjBody::MemberList(m) => json!([
+			"members",
+			list("binds", m.locals.iter().map(bind)),
+			list("asserts", m.asserts.iter().map(assert_stmt)),
+			list("fields", m.fields.iter().map(field))
+		]),
+		ObjBody::ObjComp(c) => json!([
+			"objcomp",
+			list("binds", c.locals.iter().map(bind)),
+			field(&c.field),
+			list("specs", c.compspecs.iter().map(spec))
+		]),
+	}
+}
+fn args(a: &ArgsDesc) -> (Value, Value) {
+	(
+		list("args", a.unnamed.iter().map(|e| tree(e))),
+		list(
+			"named",
+			a.named.iter().map(|(n, e)| json!(["narg", n.to_string(), tree(e)])),
+		),
+	)
+}
+pub fn tree(e: &Expr) -> Value {
+	match e {
+		Expr::Literal(l) => json!(["lit", match l {
+			LiteralType::This => "self",
+			LiteralType::Super => "super",
+			LiteralType::Dollar => "$",
+			LiteralType::Null => "null",
+			LiteralType::True => "true",
+			LiteralType::False => "false",
+		}]),
+		Expr::Str(s) => json!(["str", s.to_string()]),
+		Expr::Num(n) => json!(["num", format!("{:016x}", n.to_bits())]),
+		Expr::Var(v) => json!(["var", v.value.to_string()]),
+		Expr::Arr(es) => list("arr", es.iter().map(tree)),
+		Expr::ArrComp(b, specs) => json!(["arrcomp", tree(b), list("specs", specs.iter().map(spec))]),
+		Expr::Obj(b) => json!(["obj", body(b)]),
+		Expr::ObjExtend(e, b) => json!(["objext", tree(e), body(b)]),
+		Expr::UnaryOp(o, e) => json!(["unary", format!("{o}"), tree(e)]),
+		Expr::BinaryOp(b) => json!(["binary", format!("{}", b.op), tree(&b.lhs), tree(&b.rhs)]),
+		Expr::AssertExpr(a) => json!(["assert", assert_stmt(&a.assert), tree(&a.rest)]),
+		Expr::LocalExpr(bs, b) => json!(["local", list("binds", bs.iter().map(bind)), tree(b)]),
+		Expr::Import(k, e) => json!(["import", match k.value {
+			ImportKind::Normal => "import",
+			ImportKind::Str => "importstr",
+			ImportKind::Bin => "importbin",
+		}, tree(e)]),
+		Expr::ErrorStmt(_, e) => json!(["error", tree(e)]),
+		Expr::Apply(f, a, ts) => {
+			let (p, n) = args(&a.value);
+			json!(["apply", tree(f), p, n, if *ts { "true" } else { "false" }])
+		}
+		Expr::Index { indexable, parts } => json!([
+			"index",
+			tree(indexable),
+			list("parts", parts.iter().map(|p| {
+				json!(["part", tree(&p.value)])
+			}))
+		]),
+		Expr::Function(p, b) => json!(["func", params(p), tree(b)]),
+		Expr::IfElse(i) => json!([
+			"if",
+			tree(&i.cond.cond),
+			tree(&i.cond_then),
+			opt(i.cond_else.as_ref())
+		]),
+		Expr::Slice(s) => {
+			let o = |e: &Option<jrsonnet_ir::Spanned<Expr>>| opt(e.as_ref().map(|e| &e.value));
+			json!(["slice", tree(&s.value), o(&s.slice.start), o(&s.slice.end), o(&s.slice.step)])
+		}
+	}
+}
+
+fn parse_ir(src: &str) -> Result<Value, String> {
+	match guarded(|| {
+		jrsonnet_ir_parser::parse(
+			src,
+			&jrsonnet_ir_parser::ParserSettings {
+				source: Source::new_virtual("<c19>".into(), src.into()),
+			},
+		)
+		.map(|e| tree(&e))
+		.map_err(|e| format!("{e:?}"))
+	}) {
+		Ok(r) => r,
+		Err(p) => Err(format!("panic: {p}")),
+	}
+}
+
+fn is_comment(k: SyntaxKind) -> bool {
+	matches!(
+		k,
+		SyntaxKind::SINGLE_LINE_SLASH_COMMENT
+			| SyntaxKind::SINGLE_LINE_HASH_COMMENT
+			| SyntaxKind::MULTI_LINE_COMMENT
+	)
+}
+fn lex(src: &str) -> Vec<(SyntaxKind, String)> {
+	Lexer::new(src).map(|l| (l.kind, l.text.to_owned())).collect()
+}
+fn toks_json(t: &[(SyntaxKind, String)]) -> Value {
+	Value::Array(t.iter().map(|(k, s)| json!([format!("{k:?}"), s])).collect())
+}
+
+/// syntactic position of every comment of `src` in the formatter's own syntax tree:
+/// (comment text, parent node kind, previous significant sibling kind, next significant sibling kind)
+fn comment_sites(src: &str) -> Vec<(String, String, String, String)> {
+	let (file, _errs) = jrsonnet_rowan_parser::parse(src);
+	let mut out = Vec::new();
+	for el in file.syntax().descendants_with_tokens() {
+		let NodeOrToken::Token(t) = el else { continue };
+		let k = format!("{:?}", t.kind());
+		if !k.contains("COMMENT") {
+			continue;
+		}
+		let trivia = |s: &str| s == "WHITESPACE" || s.contains("COMMENT");
+		let parent = t.parent().map_or("-".to_owned(), |p| format!("{:?}", p.kind()));
+		let mut prev = "-".to_owned();
+		let mut cur = t.prev_sibling_or_token();
+		while let Some(c) = cur {
+			let ck = format!("{:?}", c.kind());
+			if !trivia(&ck) {
+				prev = ck;
+				break;
+			}
+			cur = c.prev_sibling_or_token();
+		}
+		let mut next = "-".to_owned();
+		let mut cur = t.next_sibling_or_token();
+		while let Some(c) = cur {
+			let ck = format!("{:?}", c.kind());
+			if !trivia(&ck) {
+				next = ck;
+				break;
+			}
+			cur = c.next_sibling_or_token();
+		}
+		out.push((t.text().to_owned(), parent, prev, next));
+	}
+	out
+}
+
+// ---------------------------------------------------------------------------------------------
+// program generator (token level)
+// ---------------------------------------------------------------------------------------------
+
+#[derive(Clone, Copy, PartialEq, Eq, Debug)]
+enum Ty {
+	Num,
+	Bool,
+	Str,
+	Arr,
+	Obj,
+	Fun,
+}
+
+struct Gen<'a> {
+	r: &'a mut Rng,
+	t: Vec<String>,
+	vars: Vec<(String, Ty)>,
+	feats: BTreeMap<&'static str, usize>,
+	obj_depth: usize,
+	ext_depth: usize,
+	fresh: usize,
+}
+
+const NAMES: &[&str] = &["a", "b", "c", "x", "y", "z", "foo", "bar_1", "q"];
+
+impl<'a> Gen<'a> {
+	fn new(r: &'a mut Rng) -> Self {
+		Self {
+			r,
+			t: Vec::new(),
+			vars: Vec::new(),
+			feats: BTreeMap::new(),
+			obj_depth: 0,
+			ext_depth: 0,
+			fresh: 0,
+		}
+	}
+	fn p(&mut self, s: &str) {
+		self.t.push(s.to_owned());
+	}
+	fn ps(&mut self, ss: &[&str]) {
+		for s in ss {
+			self.p(s);
+		}
+	}
+	fn feat(&mut self, f: &'static str) {
+		*self.feats.entry(f).or_default() += 1;
+	}
+	fn name(&mut self) -> String {
+		self.fresh += 1;
+		if self.r.chance(1, 2) {
+			format!("{}{}", self.r.pick(NAMES), self.fresh)
+		} else {
+			format!("v{}", self.fresh)
+		}
+	}
+	fn var_of(&mut self, ty: Ty) -> Option<String> {
+		let c: Vec<&String> = self.vars.iter().filter(|v| v.1 == ty).map(|v| &v.0).collect();
+		if c.is_empty() {
+			None
+		} else {
+			Some(c[self.r.below(c.len())].clone())
+		}
+	}
+	fn any(&mut self, d: usize) {
+		match self.r.below(5) {
+			0 => self.num(d),
+			1 => self.boolean(d),
+			2 => self.string(d),
+			3 => self.arr(d),
+			_ => self.obj(d),
+		}
+	}
+	fn of(&mut self, ty: Ty, d: usize) {
+		match ty {
+			Ty::Num => self.num(d),
+			Ty::Bool => self.boolean(d),
+			Ty::Str => self.string(d),
+			Ty::Arr => self.arr(d),
+			Ty::Obj => self.obj(d),
+			Ty::Fun => self.fun(d),
+		}
+	}
+	fn num_lit(&mut self) {
+		let l = *self.r.pick(&[
+			"0", "1", "2", "3", "7", "10", "42", "1.5", "0.25", "1e3", "2E-2", "1.0e+2", "100", "255",
+		]);
+		self.p(l);
+	}
+	fn string_lit(&mut self) {
+		match self.r.below(9) {
+			0 => {
+				self.feat("str-double");
+				let l = *self.r.pick(&["\"\"", "\"a\"", "\"he said \\\"hi\\\"\"", "\"tab\\there\"", "\"\\u00e9\\n\"", "\"ünï\"", "\"it's\""]);
+				self.p(l);
+			}
+			1 => {
+				self.feat("str-single");
+				let l = *self.r.pick(&["''", "'b'", "'it\\'s'", "'say \"x\"'", "'\\\\'", "'%d'"]);
+				self.p(l);
+			}
+			2 => {
+				self.feat("str-verbatim-double");
+				let l = *self.r.pick(&["@\"\"", "@\"c:\\dir\"", "@\"quote \"\" in\"", "@\"it's\""]);
+				self.p(l);
+			}
+			3 => {
+				self.feat("str-verbatim-single");
+				let l = *self.r.pick(&["@''", "@'c:\\dir'", "@'quote '' in'", "@'say \"x\"'"]);
+				self.p(l);
+			}
+			4 | 5 => self.text_block(),
+			_ => {
+				let l = *self.r.pick(&["\"k\"", "\"v\"", "'s'", "\"abc\"", "\"x y\""]);
+				self.p(l);
+			}
+		}
+	}
+	fn text_block(&mut self) {
+		self.feat("text-block");
+		let indent = *self.r.pick(&["  ", "\t", "    ", " ", "\t\t"]);
+		let mut s = String::from("|||");
+		if self.r.chance(1, 4) {
+			self.feat("text-block-chomp");
+			s.push('-');
+		}
+		s.push('\n');
+		let n = 1 + self.r.below(3);
+		for i in 0..n {
+			match self.r.below(6) {
+				0 if i > 0 => {
+					self.feat("text-block-blank-line");
+					s.push('\n');
+					s.push_str(indent);
+					s.push_str("after blank\n");
+				}
+				1 => {
+					self.feat("text-block-inner-tab");
+					s.push_str(indent);
+					s.push_str("col\tumn\n");
+				}
+				2 => {
+					s.push_str(indent);
+					s.push_str("  more indented\n");
+				}
+				3 => {
+					s.push_str(indent);
+					s.push_str("\tinner leading tab\n");
+					self.feat("text-block-inner-tab");
+				}
+				_ => {
+					s.push_str(indent);
+					s.push_str(*self.r.pick(&["line one", "x: %d", "say \"hi\" 'there'", "tail  "]));
+					s.push('\n');
+				}
+			}
+		}
+		s.push_str(*self.r.pick(&["|||", "  |||", "\t|||"]));
+		self.p(&s);
+	}
+	fn num(&mut self, d: usize) {
+		if d == 0 {
+			if let (true, Some(v)) = (self.r.chance(1, 3), self.var_of(Ty::Num)) {
+				self.p(&v);
+			} else {
+				self.num_lit();
+			}
+			return;
+		}
+		let d = d - 1;
+		match self.r.below(24) {
+			0 | 1 => self.num(0),
+			2 => {
+				self.feat("unary-minus");
+				self.p("-");
+				self.num(d);
+			}
+			3 => {
+				self.feat("unary-bitnot");
+				self.p("~");
+				self.num(d);
+			}
+			4 => {
+				if self.r.chance(1, 4) {
+					self.feat("unary-plus");
+					self.p("+");
+					self.num(d);
+				} else {
+					self.feat("unary-over-postfix");
+					let op = *self.r.pick(&["-", "~"]);
+					self.p(op);
+					self.arr(d);
+					if self.r.chance(1, 2) {
+						self.ps(&["[", "0", "]"]);
+					} else {
+						self.feat("unary-over-slice");
+						self.ps(&["[", "1", ":", "2", ":", "3", "]"]);
+					}
+				}
+			}
+			5..=8 => {
+				self.feat("binary-arith");
+				self.num(d);
+				let op = *self.r.pick(&["+", "-", "*", "/", "%", "&", "|", "^", "<<", ">>"]);
+				self.p(op);
+				self.num(d);
+			}
+			9 => {
+				self.feat("paren");
+				self.p("(");
+				self.num(d);
+				self.p(")");
+			}
+			10 => {
+				self.feat("if-else");
+				self.p("if");
+				self.boolean(d);
+				self.p("then");
+				self.num(d);
+				self.p("else");
+				self.num(d);
+			}
+			11 | 12 => self.local(Ty::Num, d),
+			13 => {
+				self.feat("index-expr");
+				self.arr(d);
+				self.p("[");
+				self.num(0);
+				self.p("]");
+			}
+			14 => {
+				self.feat("std-call");
+				self.ps(&["std", ".", "length", "("]);
+				self.arr(d);
+				self.p(")");
+			}
+			15 => {
+				self.feat("index-field");
+				self.ps(&["{", "k", ":"]);
+				self.num(d);
+				self.ps(&["}", ".", "k"]);
+			}
+			16 | 17 => self.call(d),
+			18 => self.assert_expr(Ty::Num, d),
+			19 => {
+				if self.obj_depth > 0 && self.r.chance(1, 2) {
+					self.feat("self-index");
+					let w = *self.r.pick(&["self", "$"]);
+					self.ps(&[w, ".", "k"]);
+				} else {
+					self.num(d);
+				}
+			}
+			20 => {
+				self.feat("if-no-else");
+				self.ps(&["if", "true", "then"]);
+				self.num(d);
+			}
+			21 => {
+				self.feat("error-expr");
+				self.ps(&["if", "true", "then"]);
+				self.num(d);
+				self.ps(&["else", "error"]);
+				self.string(d);
+			}
+			22 => {
+				self.feat("import");
+				let n = self.name();
+				self.ps(&["local", &n, "="]);
+				let k = *self.r.pick(&["import", "importstr", "importbin"]);
+				self.p(k);
+				let f = *self.r.pick(&["\"lib.libsonnet\"", "'data.txt'", "@\"c.bin\"", "@'d.json'"]);
+				self.p(f);
+				self.p(";");
+				self.num(d);
+			}
+			_ => {
+				self.feat("index-chain");
+				self.ps(&["{", "k", ":", "[", "{", "m", ":"]);
+				self.num(d);
+				self.ps(&["}", "]", "}", ".", "k", "[", "0", "]", "[", "\"m\"", "]"]);
+			}
+		}
+	}
+	fn call(&mut self, d: usize) {
+		if let (true, Some(f)) = (self.r.chance(2, 3), self.var_of(Ty::Fun)) {
+			self.p(&f);
+		} else {
+			self.feat("func-literal");
+			self.ps(&["(", "function", "(", "x", ",", "y", "=", "1", ")", "x", "+", "y", ")"]);
+		}
+		self.p("(");
+		match self.r.below(4) {
+			0 => {
+				self.feat("call-named-arg");
+				self.ps(&["x", "="]);
+				self.num(d);
+			}
+			1 => {
+				self.feat("call-mixed-args");
+				self.num(d);
+				self.ps(&[",", "y", "="]);
+				self.num(d);
+			}
+			2 => {
+				self.feat("call-trailing-comma");
+				self.num(d);
+				self.p(",");
+			}
+			_ => self.num(d),
+		}
+		self.p(")");
+		if self.r.chance(1, 3) {
+			self.feat("tailstrict");
+			self.p("tailstrict");
+		}
+	}
+	fn assert_expr(&mut self, ty: Ty, d: usize) {
+		self.feat("assert-expr");
+		self.p("assert");
+		self.boolean(d);
+		if self.r.chance(1, 2) {
+			self.feat("assert-message");
+			self.p(":");
+			self.string(0);
+		}
+		self.p(";");
+		self.of(ty, d);
+	}
+	fn local(&mut self, ty: Ty, d: usize) {
+		let n = match self.r.below(5) {
+			0 | 1 => 1,
+			2 | 3 => 2,
+			_ => 3,
+		};
+		if n > 1 {
+			self.feat("local-multi-bind");
+		} else {
+			self.feat("local");
+		}
+		self.p("local");
+		let mark = self.vars.len();
+		let mut bound = Vec::new();
+		for i in 0..n {
+			if i > 0 {
+				self.p(",");
+			}
+			let nm = self.name();
+			match self.r.below(6) {
+				0 => {
+					self.feat("local-fn-sugar");
+					self.ps(&[&nm, "(", "x", ",", "y", "=", "2", ")", "=", "x", "*", "y"]);
+					bound.push((nm, Ty::Fun));
+				}
+				1 => {
+					self.feat("local-fn-explicit");
+					self.ps(&[&nm, "=", "function", "(", "x", ",", "y", "=", "2", ")", "x", "-", "y"]);
+					bound.push((nm, Ty::Fun));
+				}
+				2 => {
+					self.feat("local-fn-sugar");
+					self.ps(&[&nm, "(", "x", ")", "="]);
+					self.vars.push(("x".into(), Ty::Num));
+					self.num(d.min(1));
+					self.vars.pop();
+					bound.push((nm, Ty::Fun));
+				}
+				_ => {
+					let t = *self.r.pick(&[Ty::Num, Ty::Num, Ty::Bool, Ty::Str, Ty::Arr, Ty::Obj]);
+					self.ps(&[&nm, "="]);
+					self.of(t, d.min(2));
+					bound.push((nm, t));
+				}
+			}
+		}
+		if n > 1 && self.r.chance(1, 5) {
+			// trailing comma is not valid before `;` — never generated
+		}
+		self.p(";");
+		self.vars.truncate(mark);
+		self.vars.extend(bound);
+		self.of(ty, d);
+		self.vars.truncate(mark);
+	}
+	fn boolean(&mut self, d: usize) {
+		if d == 0 {
+			if let (true, Some(v)) = (self.r.chance(1, 3), self.var_of(Ty::Bool)) {
+				self.p(&v);
+			} else {
+				let l = *self.r.pick(&["true", "false"]);
+				self.p(l);
+			}
+			return;
+		}
+		let d = d - 1;
+		match self.r.below(10) {
+			0 => self.boolean(0),
+			1 => {
+				self.feat("unary-not");
+				self.p("!");
+				self.boolean(d);
+			}
+			2 | 3 => {
+				self.feat("binary-compare");
+				self.num(d);
+				let op = *self.r.pick(&["<", ">", "<=", ">=", "==", "!="]);
+				self.p(op);
+				self.num(d);
+			}
+			4 | 5 => {
+				self.feat("binary-logic");
+				self.boolean(d);
+				let op = *self.r.pick(&["&&", "||"]);
+				self.p(op);
+				self.boolean(d);
+			}
+			6 => {
+				self.feat("binary-in");
+				self.string(0);
+				self.p("in");
+				self.obj(d);
+			}
+			7 => {
+				if self.ext_depth > 0 {
+					self.feat("in-super");
+					self.ps(&["\"k\"", "in", "super"]);
+				} else {
+					self.feat("unary-not-over-index");
+					self.ps(&["!", "{", "b", ":", "true", "}", ".", "b"]);
+				}
+			}
+			8 => self.local(Ty::Bool, d),
+			_ => {
+				self.feat("binary-eq-any");
+				self.any(d);
+				let op = *self.r.pick(&["==", "!="]);
+				self.p(op);
+				self.any(d);
+			}
+		}
+	}
+	fn string(&mut self, d: usize) {
+		if d == 0 {
+			if let (true, Some(v)) = (self.r.chance(1, 4), self.var_of(Ty::Str)) {
+				self.p(&v);
+			} else {
+				self.string_lit();
+			}
+			return;
+		}
+		let d = d - 1;
+		match self.r.below(8) {
+			0 | 1 | 2 => self.string(0),
+			3 => {
+				self.feat("binary-str-concat");
+				self.string(d);
+				self.p("+");
+				self.string(d);
+			}
+			4 => {
+				self.feat("binary-format");
+				self.ps(&["\"n=%d\"", "%"]);
+				self.num(d);
+			}
+			5 => {
+				self.feat("slice-string");
+				self.string(0);
+				self.ps(&["[", "0", ":", "2", "]"]);
+			}
+			6 => self.local(Ty::Str, d),
+			_ => {
+				self.feat("str-plus-any");
+				self.string(0);
+				self.p("+");
+				self.any(d);
+			}
+		}
+	}
+	fn arr(&mut self, d: usize) {
+		if d == 0 {
+			if let (true, Some(v)) = (self.r.chance(1, 3), self.var_of(Ty::Arr)) {
+				self.p(&v);
+			} else if self.r.chance(1, 4) {
+				self.feat("array-empty");
+				self.ps(&["[", "]"]);
+			} else {
+				self.ps(&["[", "1", ",", "2", ",", "3", ",", "4", "]"]);
+			}
+			return;
+		}
+		let d = d - 1;
+		match self.r.below(10) {
+			0 | 1 | 2 => {
+				self.feat("array");
+				self.p("[");
+				let n = self.r.below(4);
+				for i in 0..n {
+					if i > 0 {
+						self.p(",");
+					}
+					if self.r.chance(2, 3) {
+						self.num(d);
+					} else {
+						self.any(d);
+					}
+				}
+				if n > 0 && self.r.chance(1, 3) {
+					self.feat("array-trailing-comma");
+					self.p(",");
+				}
+				self.p("]");
+			}
+			3 | 4 => {
+				self.feat("array-comprehension");
+				self.p("[");
+				let x = self.name();
+				self.vars.push((x.clone(), Ty::Num));
+				self.num(d);
+				self.vars.pop();
+				self.ps(&["for", &x, "in"]);
+				self.arr(d.min(1));
+				match self.r.below(3) {
+					0 => {
+						self.feat("comprehension-if");
+						self.vars.push((x.clone(), Ty::Num));
+						self.p("if");
+						self.ps(&[&x, ">", "1"]);
+						self.vars.pop();
+					}
+					1 => {
+						self.feat("comprehension-nested-for");
+						let y = self.name();
+						self.ps(&["for", &y, "in", "[", "1", ",", "2", "]", "if", &y, "<", "2"]);
+					}
+					_ => {}
+				}
+				self.p("]");
+			}
+			5 | 6 => {
+				self.feat("slice");
+				self.arr(d);
+				let form: &[&str] = match self.r.below(8) {
+					0 => &["[", "1", ":", "]"],
+					1 => &["[", ":", "2", "]"],
+					2 => &["[", ":", ":", "2", "]"],
+					3 => &["[", "1", ":", "3", ":", "1", "]"],
+					4 => &["[", ":", ":", "]"],
+					5 => &["[", "0", ":", "3", "]"],
+					6 => &["[", "1", ":", ":", "2", "]"],
+					_ => &["[", ":", "]"],
+				};
+				self.ps(form);
+			}
+			7 => {
+				self.feat("binary-arr-concat");
+				self.arr(d);
+				self.p("+");
+				self.arr(d);
+			}
+			8 => {
+				self.feat("std-call-function-arg");
+				self.ps(&["std", ".", "map", "(", "function", "(", "e", ")", "e", "*", "2", ","]);
+				self.arr(d);
+				self.p(")");
+			}
+			_ => self.local(Ty::Arr, d),
+		}
+	}
+	fn fun(&mut self, d: usize) {
+		self.feat("func-literal");
+		self.ps(&["function", "(", "x", ",", "y", "=", "3", ")"]);
+		self.vars.push(("x".into(), Ty::Num));
+		self.num(d.min(1));
+		self.vars.pop();
+	}
+	fn field_name(&mut self) -> String {
+		self.fresh += 1;
+		let id = format!("f{}", self.fresh);
+		match self.r.below(6) {
+			0 => {
+				self.feat("field-name-string");
+				self.p(&format!("\"{id}\""));
+			}
+			1 => {
+				self.feat("field-name-string");
+				self.p(&format!("'{id} s'"));
+			}
+			2 => {
+				self.feat("field-name-dynamic");
+				self.ps(&["[", &format!("\"{id}\""), "+", "\"d\"", "]"]);
+			}
+			_ => self.p(&id),
+		}
+		id
+	}
+	fn members(&mut self, d: usize, ext: bool) {
+		self.obj_depth += 1;
+		if ext {
+			self.ext_depth += 1;
+		}
+		let mark = self.vars.len();
+		let n = self.r.below(5);
+		let mut first = true;
+		// `k` is the field other generators index
+		let mut items: Vec<usize> = (0..n).map(|_| self.r.below(12)).collect();
+		items.insert(self.r.below(items.len() + 1), 100);
+		// object locals are visible in every member: collect them first so later use is in scope
+		for it in items {
+			if !first {
+				self.p(",");
+			}
+			first = false;
+			match it {
+				100 => {
+					self.ps(&["k", ":"]);
+					self.num(d);
+				}
+				0 => {
+					self.feat("object-local");
+					let nm = self.name();
+					self.ps(&["local", &nm, "="]);
+					self.num(d.min(1));
+					self.vars.push((nm, Ty::Num));
+				}
+				1 => {
+					self.feat("object-local-fn");
+					let nm = self.name();
+					if self.r.chance(1, 2) {
+						self.ps(&["local", &nm, "(", "x", ")", "=", "x", "+", "1"]);
+					} else {
+						self.ps(&["local", &nm, "=", "function", "(", "x", ")", "x", "+", "1"]);
+					}
+					self.vars.push((nm, Ty::Fun));
+				}
+				2 => {
+					self.feat("object-assert");
+					self.p("assert");
+					self.boolean(d.min(1));
+					if self.r.chance(1, 2) {
+						self.feat("object-assert-message");
+						self.ps(&[":", "\"msg\""]);
+					}
+				}
+				3 => {
+					self.feat("method");
+					self.field_name();
+					self.ps(&["(", "x", ",", "y", "=", "2", ")"]);
+					let v = *self.r.pick(&[":", "::", ":::"]);
+					self.p(v);
+					self.ps(&["x", "+", "y"]);
+				}
+				4 => {
+					self.feat("field-function-value");
+					self.field_name();
+					self.ps(&[":", "function", "(", "x", ")", "x", "*", "2"]);
+				}
+				5 => {
+					self.feat("field-hidden");
+					self.field_name();
+					self.p("::");
+					self.any(d);
+				}
+				6 => {
+					self.feat("field-unhide");
+					self.field_name();
+					self.p(":::");
+					self.any(d);
+				}
+				7 => {
+					self.feat("field-plus");
+					self.field_name();
+					let v = *self.r.pick(&["+:", "+::", "+:::"]);
+					self.p(v);
+					match self.r.below(3) {
+						0 => self.obj(d),
+						1 => self.arr(d),
+						_ => self.num(d),
+					}
+				}
+				8 => {
+					self.feat("method-no-params");
+					self.field_name();
+					self.ps(&["(", ")", ":"]);
+					self.num(d);
+				}
+				_ => {
+					self.field_name();
+					self.p(":");
+					self.any(d);
+				}
+			}
+		}
+		if self.r.chance(1, 3) {
+			self.feat("object-trailing-comma");
+			self.p(",");
+		}
+		self.vars.truncate(mark);
+		self.obj_depth -= 1;
+		if ext {
+			self.ext_depth -= 1;
+		}
+	}
+	fn obj(&mut self, d: usize) {
+		if d == 0 {
+			if let (true, Some(v)) = (self.r.chance(1, 3), self.var_of(Ty::Obj)) {
+				self.p(&v);
+			} else if self.r.chance(1, 4) {
+				self.feat("object-empty");
+				self.ps(&["{", "}"]);
+			} else {
+				self.ps(&["{", "k", ":", "1", ",", "j", ":", "\"s\"", "}"]);
+			}
+			return;
+		}
+		let d = d - 1;
+		match self.r.below(10) {
+			0..=4 => {
+				self.feat("object");
+				self.p("{");
+				self.members(d, false);
+				self.p("}");
+			}
+			5 => {
+				self.feat("object-comprehension");
+				self.p("{");
+				let x = self.name();
+				if self.r.chance(1, 2) {
+					self.feat("object-comprehension-local");
+					self.ps(&["local", "w", "=", "1", ","]);
+				}
+				self.ps(&["[", "\"k\"", "+", &x, "]", ":", &x]);
+				if self.r.chance(1, 3) {
+					self.p(",");
+				}
+				self.ps(&["for", &x, "in"]);
+				if let (true, Some(v)) = (self.r.chance(1, 2), self.var_of(Ty::Arr)) {
+					self.feat("comprehension-over-var");
+					self.p(&v);
+				} else {
+					self.ps(&["[", "1", ",", "2", "]"]);
+				}
+				if self.r.chance(1, 2) {
+					self.feat("comprehension-if");
+					self.ps(&["if", &x, ">", "0"]);
+				}
+				if self.r.chance(1, 4) {
+					self.feat("comprehension-nested-for");
+					self.ps(&["for", "w9", "in", "[", &x, "]", "if", "w9", "==", &x]);
+				}
+				self.p("}");
+			}
+			6 => {
+				self.feat("object-extend");
+				self.obj(d);
+				self.p("{");
+				self.members(d, true);
+				if self.r.chance(1, 2) {
+					self.feat("super-index");
+					self.ps(&[",", "sup", ":", "super", ".", "k"]);
+				}
+				self.p("}");
+			}
+			7 => {
+				self.feat("binary-obj-add");
+				self.obj(d);
+				self.p("+");
+				self.p("{");
+				self.members(d, true);
+				self.p("}");
+			}
+			8 => self.local(Ty::Obj, d),
+			_ => self.assert_expr(Ty::Obj, d),
+		}
+	}
+}
+
+fn join(toks: &[String], r: &mut Rng, newlines: bool) -> String {
+	let mut s = String::new();
+	for (i, t) in toks.iter().enumerate() {
+		if i > 0 {
+			if newlines && r.chance(1, 6) {
+				s.push('\n');
+				if r.chance(1, 5) {
+					s.push('\n');
+				}
+			} else {
+				s.push(' ');
+			}
+		}
+		s.push_str(t);
+	}
+	s
+}
+
+/// boundaries 0..=n (0 = before the first token, n = after the last)
+fn decorate(toks: &[String], r: &mut Rng, style: &str, only: Option<&dyn Fn(usize) -> bool>) -> String {
+	let mut s = String::new();
+	let mut id = 0;
+	let n = toks.len();
+	for b in 0..=n {
+		let here = match (style, only) {
+			(_, Some(f)) => f(b),
+			("mixed", None) => r.chance(1, 3),
+			_ => true,
+		};
+		if here {
+			id += 1;
+			let kind = match style {
+				"block" => 0,
+				"slash" => 1,
+				"hash" => 2,
+				_ => r.below(5),
+			};
+			match kind {
+				0 => s.push_str(&format!("/* c{id} */ ")),
+				1 => s.push_str(&format!("// c{id} line\n")),
+				2 => s.push_str(&format!("# c{id} line\n")),
+				3 => s.push_str(&format!("/* c{id}\n   second c{id} */\n")),
+				_ => s.push_str(&format!("/* c{id} */\n")),
+			}
+		}
+		if b < n {
+			s.push_str(&toks[b]);
+			s.push(' ');
+		}
+	}
+	s
+}
+
+// ---------------------------------------------------------------------------------------------
+// one case
+// ---------------------------------------------------------------------------------------------
+
+struct Run<'a> {
+	w: CaseWriter,
+	stats: BTreeMap<String, usize>,
+	fmt_bin: Option<std::path::PathBuf>,
+	opts: &'a Opts,
+	bin_budget: usize,
+}
+
+impl Run<'_> {
+	fn stat(&mut self, k: &str) {
+		*self.stats.entry(k.to_owned()).or_default() += 1;
+	}
+
+	fn case(&mut self, src: &str, indent: u8, variant: &str, feats: &[&'static str], with_bin: bool) {
+		let in_ast = match parse_ir(src) {
+			Ok(a) => a,
+			Err(_) => {
+				self.stat("gen-not-valid(skipped)");
+				return;
+			}
+		};
+		let in_toks = lex(src);
+		let res = guarded(|| format(src, &FormatOptions { indent }).map_err(|_diag| ()));
+		let mut op = json!({
+			"op": "fmt.validate", "src": src, "indent": indent, "variant": variant, "feats": feats,
+			"in_ast": in_ast, "in_toks": toks_json(&in_toks),
+			"size": src.len(),
+		});
+		let o = op.as_object_mut().expect("object");
+		let mut answer = json!({});
+		match res {
+			Err(p) => {
+				o.insert("outcome".into(), json!("panic"));
+				o.insert("panic".into(), json!(p));
+				let nerr = guarded(|| jrsonnet_rowan_parser::parse(src).1.len()).unwrap_or(0);
+				o.insert("rowan_errors".into(), json!(nerr));
+				answer = json!({"panic": p});
+				self.stat("outcome:panic");
+			}
+			Ok(Err(())) => {
+				o.insert("outcome".into(), json!("declined"));
+				o.insert("trivial".into(), json!(true));
+				self.stat("outcome:declined");
+			}
+			Ok(Ok(out)) => {
+				self.stat("outcome:formatted");
+				o.insert("outcome".into(), json!("formatted"));
+				o.insert("out".into(), json!(out));
+				let out_toks = lex(&out);
+				o.insert("out_toks".into(), toks_json(&out_toks));
+				match parse_ir(&out) {
+					Ok(a) => {
+						o.insert("out_ast".into(), a);
+					}
+					Err(e) => {
+						o.insert("out_ast".into(), Value::Null);
+						o.insert("reparse_error".into(), json!(e));
+						self.stat("reparse-error");
+					}
+				}
+				// comments lost / position classes (informational; classifiers use it)
+				let outc: Vec<&String> = out_toks.iter().filter(|t| is_comment(t.0)).map(|t| &t.1).collect();
+				let n_in = in_toks.iter().filter(|t| is_comment(t.0)).count();
+				if n_in > 0 {
+					let sites = comment_sites(src);
+					let key = |s: &str| s.split_whitespace().nth(1).unwrap_or("").trim_end_matches("*/").to_owned();
+					let kept: Vec<String> = outc.iter().map(|s| key(s)).collect();
+					let mut lost = Vec::new();
+					for (text, parent, prev, next) in sites {
+						if !kept.contains(&key(&text)) {
+							lost.push(json!({"c": key(&text), "parent": parent, "prev": prev, "next": next}));
+						}
+					}
+					o.insert("lost_comments".into(), Value::Array(lost));
+				}
+				// redundant: evaluate both with the real evaluator
+				let ev_in = eval_json(&new_state(), src);
+				let ev_out = eval_json(&new_state(), &out);
+				let strip = |v: &Value| {
+					let mut v = v.clone();
+					if let Some(m) = v.as_object_mut() {
+						m.remove("msg");
+					}
+					v
+				};
+				o.insert("eval_in".into(), strip(&ev_in));
+				o.insert("eval_out".into(), strip(&ev_out));
+				// binary vs library
+				let mut bin = "skipped";
+				if with_bin && indent == 2 && self.bin_budget > 0 {
+					if let Some(b) = &self.fmt_bin {
+						self.bin_budget -= 1;
+						if let Ok(res) = Command::new(b).args(["-e", "--", src]).output() {
+							let want = format!("{}\n", out.trim());
+							bin = if res.status.success() && String::from_utf8_lossy(&res.stdout) == want {
+								"agree"
+							} else {
+								"differ"
+							};
+							self.stat(&format!("bin:{bin}"));
+						}
+					}
+				}
+				o.insert("bin".into(), json!(bin));
+				answer = json!({"formatted": true});
+			}
+		}
+		self.w.case(op, answer);
+	}
+}
+
+fn replay_src(path: &std::path::Path) -> Option<(String, u8)> {
+	let text = std::fs::read_to_string(path).ok()?;
+	if let Ok(v) = serde_json::from_str::<Value>(&text) {
+		let op = v.get("op").unwrap_or(&v);
+		if let Some(s) = op.get("src").and_then(Value::as_str) {
+			let ind = op.get("indent").and_then(Value::as_u64).unwrap_or(2) as u8;
+			return Some((s.to_owned(), ind));
+		}
+	}
+	Some((text, 2))
+}
+
+/// inputs of the defects this property was written for, plus hand-written corner cases
+const SEEDS: &[&str] = &[
+	"local a = 1, b = 2; a",
+	"local a = 1, b = 2, c = 3; a + b + c",
+	"local f = function(x) x; f(1) tailstrict",
+	"local f(x) = x; f(1) tailstrict",
+	"~a[1:2:3]",
+	"local a = [1, 2, 3, 4]; ~a[1:2:3]",
+	"local a = [1, 2, 3, 4]; -a[0]",
+	"!{ b: true }.b",
+	"-{ k: 1 }.k",
+	"-std.length([1])",
+	"local f = function(x) x; f",
+	"{ f: function(x) x }",
+	"{ f(x): x }",
+	"{ f+: function(x) x }",
+	"{ local f = function(x) x, g: f(1) }",
+	"{ assert true : 'm', a: 1 }",
+	"{ assert true, a: 1 }",
+	"[x for x in [1, 2, 3] if x > 1 for y in [1]]",
+	"{ ['k' + x]: x for x in ['a', 'b'] }",
+	"local y = ['a', 'b'], z = true; { ['k' + x]: x for x in y if z }",
+	"local y = ['a', 'b'], z = true; { ['k' + x]: x for x in y for w in y if z if w == x }",
+	"local y = [1, 2], z = true; [x for x in y if z]",
+	"[1, 2 // c\n]",
+	"f(1, // c\n2)",
+	"{ a: 1 // c\n}",
+	"{ a: 1, # c\n b: 2 # d\n}",
+	"local a = 1, // c\n b = 2 # d\n; a",
+	"/** doc c1 */ { a: 1 }",
+	"/**\n * doc c1\n * more c1\n */\n{ a: 1 }",
+	"{ /* c1 */ a: 1, /* c2 */ b: 2 /* c3 */ } // c4",
+	"\"a\nb\"",
+	"@'a\nb'",
+	"{ local w = 1, ['k' + x]: w for x in ['a', 'b'] if x != 'a' }",
+	"{ a: 1 } { a+: 2, b: super.a, c: 'a' in super }",
+	"local o = { a: 1 }; o { b: 2 }",
+	"'abc'[0:2]",
+	"[1, 2, 3][::]",
+	"[1, 2, 3][1:]",
+	"[1, 2, 3][:2]",
+	"[1, 2, 3][::2]",
+	"[1, 2, 3][1::2]",
+	"[1, 2, 3][0:3:1]",
+	"if true then 1",
+	"if true then 1 else 2",
+	"assert 1 == 1; 2",
+	"assert 1 == 1 : 'msg'; 2",
+	"error 'x'",
+	"local i = import 'a.libsonnet', s = importstr \"b.txt\", b = importbin @'c.bin'; 1",
+	"|||\n  a\n\n  b\n|||",
+	"|||-\n\ta\tb\n\t\tc\n|||",
+	"|||\n  a\n   b\n|||",
+	"@\"a\"\"b\" + @'c''d' + \"e\\\"f\" + 'g\\'h'",
+	"1 + 2 * 3 - 4 / 5 % 6",
+	"(1 + 2) * 3",
+	"1 - (2 - 3)",
+	"1 << 2 >> 1 & 3 | 4 ^ 5",
+	"1 < 2 && 2 <= 3 || 3 > 2 && !(3 >= 4) && 1 == 1 && 1 != 2",
+	"'a' in { a: 1 }",
+	"-1",
+	"- -1",
+	"!true",
+	"~1",
+	"+1",
+	"-(1 + 2)",
+	"-1 + 2",
+	"function(a, b = 2) a + b",
+	"(function(a, b = 2) a + b)(1, b = 3)",
+	"(function(a, b = 2) a + b)(a = 1)",
+	"std.map(function(x) x, [1])",
+	"{ a: 1, b:: 2, c::: 3, d+: 4, e+:: 5, f+::: 6, 'g h': 7, \"i\": 8, ['j']: 9 }",
+	"{ a: self.b, b: $.c, c: 1 }",
+	"{ }",
+	"[ ]",
+	"{ a: { b: { c: [1, [2, [3]]] } } }.a.b.c[1][1][0]",
+	"local a = 1; local b = 2; a + b",
+	"local a = 1;\n\nlocal b = 2;\n\n\na + b",
+	"{\n  a: 1,\n\n  b: 2,\n}",
+	"[\n  1,\n  2,\n]",
+	"f(\n  1,\n  2,\n)",
+	"local f(a, b) = a + b; f(\n  1,\n  2,\n)",
+	"null",
+	"1e3 + 1.5 + 2E-2 + 0.25",
+	"\"%d %s\" % [1, 'a']",
+	"local f(x, y = 2) = x * y; f(3)",
+	"local f(x, y = 2) = x * y, g = function(x) f(x, y = x); g(3) tailstrict",
+	"{ m(x, y = 2):: x * y, r: self.m(2) }",
+	"{ m():: 1, r: self.m() }",
+	"local o = { f(x): x + 1 }; o.f(1)",
+	"local o = { f: function(x) x + 1 }; o.f(1)",
+];
 
 pub fn run(opts: &Opts) {
 	let w = CaseWriter::new(&opts.out);
-	w.finish(serde_json::json!({"engine":"c19","cases":0,"rule":"stub"}), &opts.out);
+	let fmt_bin = std::env::var_os("VERIF_BIN_DIR")
+		.map(|d| std::path::PathBuf::from(d).join("jrsonnet-fmt"))
+		.filter(|p| p.exists());
+	let mut run = Run {
+		w,
+		stats: BTreeMap::new(),
+		fmt_bin,
+		opts,
+		bin_budget: if opts.thorough() { 1500 } else { 150 },
+	};
+	let mut feats_total: BTreeMap<&'static str, usize> = BTreeMap::new();
+
+	if let Some(p) = &opts.replay {
+		if let Some((src, ind)) = replay_src(p) {
+			run.case(&src, ind, "replay", &[], true);
+		}
+		let n = run.w.n;
+		run.w.finish(json!({"engine":"c19","cases":n,"rule":"replay"}), &opts.out);
+		return;
+	}
+
+	let mut rng = Rng::new(opts.seed ^ 0xC19);
+	// 1. seeds: plain × {tabs,2,4}, and decorated
+	for s in SEEDS {
+		for ind in [2u8, 0, 4] {
+			run.case(s, ind, "seed", &[], ind == 2);
+		}
+		let lexed = lex(s);
+		if lexed.iter().any(|t| is_comment(t.0)) {
+			continue;
+		}
+		let toks: Vec<String> = lexed
+			.into_iter()
+			.filter(|t| t.0 != SyntaxKind::WHITESPACE)
+			.map(|t| t.1)
+			.collect();
+		for style in ["block", "slash", "hash", "mixed"] {
+			let d = decorate(&toks, &mut rng, style, None);
+			run.case(&d, 2, &format!("seed+{style}"), &[], false);
+		}
+	}
+	// 2. generated programs
+	let n_prog = if opts.thorough() { 6000 } else { 500 };
+	for i in 0..n_prog {
+		let depth = 1 + i % 4;
+		let mut g = Gen::new(&mut rng);
+		match i % 6 {
+			0 => g.num(depth),
+			1 => g.obj(depth),
+			2 => g.arr(depth),
+			3 => g.string(depth),
+			4 => g.boolean(depth),
+			_ => g.any(depth),
+		}
+		let toks = std::mem::take(&mut g.t);
+		let feats: Vec<&'static str> = g.feats.keys().copied().collect();
+		for (k, v) in &g.feats {
+			*feats_total.entry(k).or_default() += v;
+		}
+		drop(g);
+		let plain = join(&toks, &mut rng, false);
+		for ind in [2u8, 0, 4] {
+			run.case(&plain, ind, "plain", &feats, ind == 2);
+		}
+		let broken = join(&toks, &mut rng, true);
+		let ind = *rng.pick(&[0u8, 2, 4]);
+		run.case(&broken, ind, "plain+newlines", &feats, false);
+		let styles: &[&str] = if toks.len() <= 60 { &["block", "slash", "hash", "mixed"] } else { &["mixed"] };
+		for style in styles {
+			let d = decorate(&toks, &mut rng, style, None);
+			let ind = *rng.pick(&[0u8, 2, 4]);
+			run.case(&d, ind, &format!("gen+{style}"), &feats, false);
+		}
+	}
+	let n = run.w.n;
+	let stats = run.stats.clone();
+	let _ = run.opts;
+	run.w.finish(
+		json!({
+			"engine": "c19", "cases": n, "programs": n_prog, "seeds": SEEDS.len(),
+			"stats": stats, "features": feats_total,
+			"bin": run.fmt_bin.as_ref().map(|p| p.display().to_string()),
+			"rule": "token-level typed generator over all constructs (depth 1..4) + hand-written seeds; each program plain x indent {tabs,2,4}, with random source line breaks, and decorated with block / // / # / mixed comments at every token boundary; real format() -> re-parse with jrsonnet_ir_parser -> Lean validator",
+		}),
+		&opts.out,
+	);
 }
